@@ -103,11 +103,15 @@ func (ctx Ctx) coqTypeOfType(n ast.Node, t types.Type) coq.Type {
 		if t.Obj().Pkg().Name() == "disk" && t.Obj().Name() == "Disk" {
 			return coq.TypeIdent("disk.Disk")
 		}
-		if t.Obj().Pkg() != nil && t.Obj().Pkg().Name() == "sync" &&
-			(t.Obj().Name() == "Mutex" || t.Obj().Name() == "Cond" || t.Obj().Name() == "WaitGroup") {
+		if isSyncValue(t) {
 			// by value (pointers to these are handled above): GooseLang's
 			// locks, condition variables and wait groups are references
 			ctx.unsupported(n, "sync.%s without pointer indirection", t.Obj().Name())
+		}
+		if t.Obj().Pkg().Name() == "sync" && t.Obj().Name() == "Locker" {
+			// there is no GooseLang counterpart of the interface (its
+			// methods would be struct.get sync.Locker "Lock")
+			ctx.unsupported(n, "sync.Locker")
 		}
 		if info, ok := ctx.getStructInfo(t); ok {
 			return coq.StructName(info.name)
@@ -266,6 +270,21 @@ func isProphId(t types.Type) bool {
 			return (name.Pkg().Name() == "machine" || name.Pkg().Name() == "primitive") &&
 				name.Name() == "prophId"
 		}
+	}
+	return false
+}
+
+// isSyncValue reports whether t is sync.Mutex, sync.Cond or sync.WaitGroup
+// itself (not a pointer to one): these are opaque references in GooseLang and
+// cannot be copied, stored or taken apart.
+func isSyncValue(t types.Type) bool {
+	named, ok := t.(*types.Named)
+	if !ok || named.Obj().Pkg() == nil || named.Obj().Pkg().Name() != "sync" {
+		return false
+	}
+	switch named.Obj().Name() {
+	case "Mutex", "Cond", "WaitGroup":
+		return true
 	}
 	return false
 }
